@@ -296,9 +296,40 @@ func writeEvidence(w *World, res *checkResult, tier string, seed int, cfg Solver
 	var fams []map[string]any
 	var samples []map[string]any
 	knownObl := 0
+	// reachability probes: one obligation per program point (family) - the point is reachable under the assumptions
+	// when the assumptions of at least one sampled path to it are not contradictory; probes on infeasible paths
+	// are not proof obligations
+	vacOK := map[string]bool{}
+	vacSeen := map[string]bool{}
+	probes := 0
+	for _, o := range res.all {
+		if o.Kind == "vacuity" {
+			probes++
+			if o.Status == "discharged" {
+				vacOK[o.Family] = true
+			}
+		}
+	}
 	for _, o := range res.all {
 		if _, k := knownFam[o.Family]; k && o.Status != "discharged" {
 			knownObl++
+			continue
+		}
+		if o.Kind == "vacuity" {
+			byBackend[o.Backend]++
+			solverTime += o.TimeS
+			if vacSeen[o.Family] {
+				continue
+			}
+			vacSeen[o.Family] = true
+			nObl++
+			st := "vacuous"
+			if vacOK[o.Family] {
+				nDis++
+				st = "discharged"
+			}
+			famSeen[o.Family] = true
+			fams = append(fams, map[string]any{"family": o.Family, "kind": o.Kind, "status": st, "backend": o.Backend, "time_s": round3(o.TimeS)})
 			continue
 		}
 		nObl++
@@ -358,6 +389,7 @@ func writeEvidence(w *World, res *checkResult, tier string, seed int, cfg Solver
 	cov := map[string]any{
 		"obligations":              nObl,
 		"discharged":               nDis,
+		"reachability_probes":      probes,
 		"checker_cmd":              fmt.Sprintf("/verif/bin/govc check -prop %s -tier %s  (VCs from /repo working tree via go/packages -tags=verif; solvers z3-new 5.1 / z3 4.8.12 / cvc5 1.0.x raced, %ds limit)", prop, tier, cfg.TimeoutS),
 		"trusted_base":             append([]string{"govc VC generator (/verif/govc)", "go/packages + go/types (x/tools v0.29.0)", "SMT solvers z3 / cvc5"}, deps...),
 		"samples":                  samples,
